@@ -69,6 +69,12 @@ def matmulL (a : List (List Int)) (b : List (List Int)) : List (List Int) :=
 def diagL (rows : List (List Int)) : List Int :=
   rows.zipIdx.filterMap (fun (p : List Int × Nat) => p.1[p.2]?)
 
+/-- the `k`-th diagonal of a matrix given by its rows (`k > 0`: above the main diagonal, `k < 0`: below): the entries `rows[i][i+k]`
+that exist. Taking the two axes in the other order is the diagonal of the transposed matrix, i.e. offset `-k` of this one. -/
+def diagOffL (rows : List (List Int)) (k : Int) : List Int :=
+  rows.zipIdx.filterMap (fun (p : List Int × Nat) =>
+    if 0 ≤ (p.2 : Int) + k then p.1[((p.2 : Int) + k).toNat]? else none)
+
 def clipL (lo hi : Option Int) (l : List Int) : List Int :=
   l.map (fun c => let c1 := match hi with | some h => min h c | none => c
                   match lo with | some l => max l c1 | none => c1)
